@@ -26,11 +26,18 @@ CONSTANTS NC,            \* number of candidate objects
           RmTypes,       \* types given to remove_by_type / remove_by_depth("t:"type)
           BadDepths,     \* integer depths given to remove_by_depth / get_by_depth that name no level
           Ops,           \* enabled families of actions
+          MaxPhase,      \* how many removals / topology replacements are remembered in the state (see phase)
+          PhaseQueries,  \* the queries that are still asked once phase is not empty
           NStripes, Stripe, SimLen
 
-VARIABLES dists, h, alive, nres, hist
-vars == <<dists, h, alive, nres, hist>>
-View == <<dists, h, alive, nres>>
+\* phase remembers (up to MaxPhase of) the removals, dups and XML round trips that happened.  They do not change
+\* the abstract store beyond what dists shows, but the implementation's lists, identifiers and cached object
+\* pointers have been through them: remembering them makes "remove, then add again" or "dup, then release_remove"
+\* distinct states, hence behaviours that get generated.
+VARIABLES dists, h, alive, nres, phase, hist
+vars == <<dists, h, alive, nres, phase, hist>>
+View == <<dists, h, alive, nres, phase>>
+Bump(tag) == phase' = IF Len(phase) < MaxPhase THEN Append(phase, tag) ELSE phase
 
 Cands == 1..NC
 ToObjs(cs) == [i \in DOMAIN cs |-> IF cs[i] = 0 \/ cs[i] \notin alive THEN NULLOBJ ELSE cs[i]]
@@ -52,7 +59,7 @@ ValOf(p, n) == [k \in 1..(n * n) |->
         [] p = 6 -> IF i = j THEN 0 ELSE IF dd = 2 THEN 4 ELSE IF dd = 1 THEN 0 ELSE 2
         [] OTHER -> RandomElement({0, 1, 2, 4})]
 
-Init == dists = <<>> /\ h = NoHandle /\ alive = Cands /\ nres = 0 /\ hist = <<>>
+Init == dists = <<>> /\ h = NoHandle /\ alive = Cands /\ nres = 0 /\ phase = <<>> /\ hist = <<>>
 
 \* hist entries are <<stripe code, op name, arguments...>>
 Log(c, t) == hist' = Append(hist, <<c>> \o t)
@@ -64,11 +71,12 @@ Create(nm, k, f) ==
   /\ h.st = "none" /\ Len(dists) < MaxDists
   /\ h' = IF CreateMustFail(k, f) THEN NoHandle ELSE Created(IF nm = "-" THEN "" ELSE nm, nm # "-", k)
   /\ Log(k * 7 + f * 3 + NameIx(nm), <<"create", nm, k, f>>)
-  /\ UNCHANGED <<dists, alive, nres>>
+  /\ UNCHANGED <<dists, alive, nres, phase>>
 
 \* resolution: any NULL object makes the call fail
+\* (a second add_values on the same handle is only tried with two fixed arrays)
 Values(cs, p, f) ==
-  /\ h.st \in {"created", "filled"}
+  /\ h.st = "created" \/ (h.st = "filled" /\ cs \in {<<1, 2>>, <<2>>})
   /\ \A i \in DOMAIN cs : cs[i] = 0 \/ cs[i] \in alive
   /\ LET objs == ToObjs(cs)
          vals == ValOf(p, Len(cs))
@@ -76,7 +84,7 @@ Values(cs, p, f) ==
      IN /\ ValuesRel(h, objs, f, ret)
         /\ h' = AfterValues(h, objs, ObjTypes(objs), vals, ret)
         /\ Log(p * 11 + f * 5 + Len(cs) + (IF cs = <<>> THEN 0 ELSE cs[1] * 3 + cs[Len(cs)]), <<"values", f, cs, vals>>)
-  /\ UNCHANGED <<dists, alive, nres>>
+  /\ UNCHANGED <<dists, alive, nres, phase>>
 
 \* resolution: the committed kind is the created kind plus HETEROGENEOUS_TYPES when the types differ
 Commit(f) ==
@@ -86,27 +94,31 @@ Commit(f) ==
      /\ SameUpToHet(AfterCommit(dists, h, ret), dists')
   /\ h' = NoHandle
   /\ Log(f * 13 + 1, <<"commit", f>>)
-  /\ UNCHANGED <<alive, nres>>
+  /\ UNCHANGED <<alive, nres, phase>>
 
 \* ---------- remove ----------
 Remove == /\ "remove" \in Ops /\ dists # <<>>
-          /\ dists' = <<>> /\ Log(5, <<"remove">>) /\ UNCHANGED <<h, alive, nres>>
+          /\ dists' = <<>> /\ Bump("rm") /\ Log(5, <<"remove">>) /\ UNCHANGED <<h, alive, nres>>
 \* resolution: heterogeneous matrices are not "for" any single type
 RmType(t) == /\ "rmtype" \in Ops /\ dists # <<>>
              /\ dists' = RemoveAt(dists, {i \in DOMAIN dists : TypeMust(dists[i], t)})
              /\ RemovalRel(dists, t, dists')
+             /\ (IF dists' # dists THEN Bump("rm") ELSE UNCHANGED phase)
              /\ Log(Len(t), <<"rmtype", t>>) /\ UNCHANGED <<h, alive, nres>>
 RmDepthT(t) == /\ "rmdepth" \in Ops /\ dists # <<>>
                /\ dists' = RemoveAt(dists, {i \in DOMAIN dists : TypeMust(dists[i], t)})
+               /\ (IF dists' # dists THEN Bump("rm") ELSE UNCHANGED phase)
                /\ Log(Len(t) + 1, <<"rmdepth", "t", t>>) /\ UNCHANGED <<h, alive, nres>>
 RmDepthBad(d) == /\ "rmdepth" \in Ops /\ dists # <<>>
-                 /\ Log(d, <<"rmdepth", "i", d>>) /\ UNCHANGED <<dists, h, alive, nres>>
+                 /\ Log(d, <<"rmdepth", "i", d>>) /\ UNCHANGED <<dists, h, alive, nres, phase>>
 RR(k) == /\ "rr" \in Ops /\ k \in 0..Len(dists)      \* k = Len(dists): nothing to remove (skipped on the real side)
          /\ dists' = RemoveAt(dists, {k + 1})
          /\ (k < Len(dists)) => RemoveOneRel(dists, dists[k + 1], dists')
+         /\ (IF dists' # dists THEN Bump("rm") ELSE UNCHANGED phase)
          /\ Log(k * 3, <<"rr", k>>) /\ UNCHANGED <<h, alive, nres>>
 RR2(k) == /\ "rr2" \in Ops /\ k \in 0..(Len(dists) - 1)
           /\ dists' = RemoveAt(dists, {k + 1})
+          /\ Bump("rm")
           /\ Log(k * 3 + 1, <<"rr2", k>>) /\ UNCHANGED <<h, alive, nres>>
 
 \* ---------- the topology changes under the store ----------
@@ -114,22 +126,22 @@ Restrict(r) == /\ "restrict" \in Ops /\ h.st # "filled" /\ nres < MaxRestricts
                /\ alive' = alive \cap r.alive
                /\ dists' = RestrictAll(dists, alive')
                /\ nres' = nres + 1
-               /\ Log(r.id * 17, <<"restrict", r.id>>) /\ UNCHANGED h
+               /\ Log(r.id * 17, <<"restrict", r.id>>) /\ UNCHANGED <<h, phase>>
 Dup == /\ "dup" \in Ops /\ h.st = "none" /\ dists # <<>>
-       /\ Log(3, <<"dup">>) /\ UNCHANGED <<dists, h, alive, nres>>
+       /\ Bump("dup") /\ Log(3, <<"dup">>) /\ UNCHANGED <<dists, h, alive, nres>>
 Xml == /\ "xml" \in Ops /\ h.st = "none" /\ dists # <<>>
-       /\ Log(4, <<"xml">>) /\ UNCHANGED <<dists, h, alive, nres>>
+       /\ Bump("xml") /\ Log(4, <<"xml">>) /\ UNCHANGED <<dists, h, alive, nres>>
 
 Shm == /\ "shm" \in Ops /\ dists # <<>>
-       /\ Log(6, <<"shm">>) /\ UNCHANGED <<dists, h, alive, nres>>
+       /\ Log(6, <<"shm">>) /\ UNCHANGED <<dists, h, alive, nres, phase>>
 
 \* ---------- observers ----------
-Query(q) == /\ "q" \in Ops
+Query(q) == /\ "q" \in Ops /\ (phase = <<>> \/ q \in PhaseQueries)
             /\ Log(Len(q[1]) * 5 + q[3] * 3 + q[5] + q[4], <<"q">> \o q)
-            /\ UNCHANGED <<dists, h, alive, nres>>
+            /\ UNCHANGED <<dists, h, alive, nres, phase>>
 Xf(k, x) == /\ "xf" \in Ops /\ k \in 0..(Len(dists) - 1)
             /\ Log(k * 7 + x[1] * 5 + x[2] * 3 + x[3] + x[4], <<"xf", k>> \o x)
-            /\ UNCHANGED <<dists, h, alive, nres>>
+            /\ UNCHANGED <<dists, h, alive, nres, phase>>
 
 Next == \/ \E nm \in Names, k \in Kinds, f \in CreateFlags : Create(nm, k, f)
         \/ \E cs \in ObjSeqs, p \in ValPats, f \in ValuesFlags : Values(cs, p, f)
@@ -148,12 +160,13 @@ Spec == Init /\ [][Next]_vars
 \* ---------- the property on the abstract store ----------
 TypeOK == /\ h.st \in {"none", "created", "filled"}
           /\ alive \subseteq Cands /\ nres \in 0..MaxRestricts /\ Len(dists) <= MaxDists
+          /\ Len(phase) <= MaxPhase /\ Range(phase) \subseteq {"rm", "dup", "xml"}
 \* what is stored is well formed and only references live objects of this topology
 StoreOK == \A i \in DOMAIN dists : WellFormed(dists[i]) /\ Range(dists[i].objs) \subseteq alive
 HandleOK == /\ h.st = "filled" => (Len(h.objs) >= 2 /\ NULLOBJ \notin Range(h.objs) /\ Len(h.vals) = Len(h.objs) * Len(h.objs))
             /\ h.st # "none" => ~KindMustReject(h.kind)
 \* every stored structure is returned under exactly the filters that match it, whatever the array size
-FilterOK == \A i \in DOMAIN dists :
+FilterOK == phase = <<>> => \A i \in DOMAIN dists :
               LET d == dists[i] IN
               /\ QMust(d, [by |-> "kind", arg |-> "", kind |-> 0])
               /\ d.hasname => QMust(d, [by |-> "name", arg |-> d.name, kind |-> 0])
